@@ -1,6 +1,6 @@
 (** C09 - unknown keys: denied exactly and completely, otherwise ignored completely. *)
-From Deserr Require Import Base Pointer Kinds Value Prog Utf8 Scalars Types Deser Monitors.
-From Deserr.proofs Require Import MiscProofs.
+From Deserr Require Import Base Pointer Kinds Value Prog Utf8 Scalars Types Deser Monitors Spec.
+From Deserr.proofs Require Import MiscProofs RefineFields FieldsSpec.
 
 (** without deny_unknown_fields, members whose key matches no field have no influence
     whatsoever: the run (result AND every call) is the run on the payload without them, for any
@@ -22,6 +22,37 @@ Theorem c09_denied_step : forall a fs keys l k v ms acc sts,
                     end).
 Proof. exact entries_deny_step. Qed.
 
+(** Specification level (the interpreter refines it, C02): a member whose key is the effective key
+    of no field is, under deny_unknown_fields, exactly one UnknownKey report at the container's
+    location listing the accepted keys in declaration order; without the attribute it contributes
+    nothing at all; with a user function, one call with (key, accepted keys, location) whose result
+    is handed over at the container's location. By [c02_fields_independent] these are added up over
+    all members: one report per unknown key. *)
+Theorem c09_unknown_member_result : forall fs d l k v,
+  (forall f, In f fs -> sp_key f <> k) ->
+  s_member fs d l (k, v)
+  = (None,
+     match d with
+     | DenyNo => mkS None [] []
+     | DenyDefault => s_fault (FKind (UnknownKey k (map sp_key fs)) l)
+     | DenyFn fn =>
+       let args := [AStr k; AStrs (map sp_key fs); ALoc (to_owned l)] in
+       mkS None [FUser (fn, args) l] [(fn, args)]
+     end).
+Proof. exact unknown_member_result. Qed.
+
+Check c09_unknown_member_result : forall fs d l k v,
+  (forall f, In f fs -> sp_key f <> k) ->
+  s_member fs d l (k, v)
+  = (None,
+     match d with
+     | DenyNo => mkS None [] []
+     | DenyDefault => s_fault (FKind (UnknownKey k (map sp_key fs)) l)
+     | DenyFn fn =>
+       let args := [AStr k; AStrs (map sp_key fs); ALoc (to_owned l)] in
+       mkS None [FUser (fn, args) l] [(fn, args)]
+     end).
+
 Check c09_ignored : forall script a fs sk mk ms l s,
   run script (run_fields a fs sk DenyNo mk ms l) s
   = run script (run_fields a fs sk DenyNo mk (filter (known fs) ms) l) s.
@@ -35,3 +66,4 @@ Check c09_denied_step : forall a fs keys l k v ms acc sts,
                     end).
 Print Assumptions c09_ignored.
 Print Assumptions c09_denied_step.
+Print Assumptions c09_unknown_member_result.
